@@ -1478,6 +1478,58 @@ mod c08 {
                 }
             }
         }
+        // (d3) layout-1 footers whose sections disagree about the number of chunks while every offset and the length
+        //      trailer fit the bytes written: the hash section and the trailing count describe the real chunks, the
+        //      boundary section holds fewer or more entries (and announces that many) - and the converse
+        if seed.footer_kind == FOOT_V1 {
+            let list = list_of(&seed.frames);
+            let hashes: Vec<RH> = list.iter().map(|x| x.0).collect();
+            let mut phys = vec![];
+            let mut unp = vec![];
+            let (mut pos, mut u) = (0u32, 0u32);
+            for f in &seed.frames {
+                pos += f.raw.len() as u32;
+                phys.push(pos);
+                u += f.data.len() as u32;
+                unp.push(u);
+            }
+            let n32 = n as u32;
+            let frames_bytes = &b[..seed.frames_end];
+            let mut forge = |desc: String, footer: Vec<u8>| push(desc, [frames_bytes, &footer[..]].concat(), vec![]);
+            // boundary section with m != n entries
+            let mut variants: Vec<(usize, Vec<u32>, Vec<u32>)> = vec![];
+            if n >= 1 {
+                variants.push((n - 1, phys[..n - 1].to_vec(), unp[..n - 1].to_vec()));
+                variants.push((0, vec![], vec![]));
+            }
+            let mut p1 = phys.clone();
+            p1.push(pos + 8);
+            let mut u1 = unp.clone();
+            u1.push(u + 8);
+            variants.push((n + 1, p1, u1));
+            let mut p2 = phys.clone();
+            p2.push(pos);
+            let mut u2 = unp.clone();
+            u2.push(u);
+            variants.push((n + 1, p2, u2));
+            for (vi, (m, ph, un)) in variants.into_iter().enumerate() {
+                if m == n {
+                    continue;
+                }
+                forge(format!("forge-sections:{m}-boundaries-for-{n}-hashes#{vi}"), rm::build_footer_v1_parts(&seed.hash, &hashes, n32, &ph, &un, m as u32, n32));
+                forge(format!("forge-sections:{m}-boundaries-for-{n}-hashes#{vi}/trailing-count-{m}"), rm::build_footer_v1_parts(&seed.hash, &hashes, n32, &ph, &un, m as u32, m as u32));
+            }
+            // hash section with m != n entries, boundary section right
+            if n >= 1 {
+                forge(format!("forge-sections:{}-hashes-for-{n}-boundaries", n - 1), rm::build_footer_v1_parts(&seed.hash, &hashes[..n - 1], n32 - 1, &phys, &unp, n32, n32));
+            }
+            let mut h1 = hashes.clone();
+            h1.push(*hashes.last().unwrap());
+            forge(format!("forge-sections:{}-hashes-for-{n}-boundaries", n + 1), rm::build_footer_v1_parts(&seed.hash, &h1, n32 + 1, &phys, &unp, n32, n32));
+            forge(format!("forge-sections:{}-hashes-for-{n}-boundaries/trailing-count-{}", n + 1, n + 1), rm::build_footer_v1_parts(&seed.hash, &h1, n32 + 1, &phys, &unp, n32, n32 + 1));
+            // count fields that disagree with the entries written (offsets still right)
+            forge(format!("forge-sections:boundary-count-field-{}-over-{n}-entries", n + 1), rm::build_footer_v1_parts(&seed.hash, &hashes, n32, &phys, &unp, n32 + 1, n32));
+        }
         // footer kind conversions
         push("footer->v0-marker-only".into(), [&b[..seed.frames_end], &b"XETBLOB\0"[..]].concat(), vec![]);
         push("footer->v1-marker-only".into(), [&b[..seed.frames_end], &b"XETBLOB\x01"[..]].concat(), vec![]);
@@ -2332,9 +2384,10 @@ mod c08 {
             }
             // crafted well-formed objects whose chunks unpack to 2^32 bytes (19 MB each, a few seconds in all)
             specs.push(("oversized".into(), json!({"oversized": true, "tier": tier.name()})));
-            // one chunk more than a generated footer can describe (thorough only: 859 MB of lazily produced input,
+            // one chunk more than a generated footer can describe (the thorough COMMAND only - the quick command runs
+            // this lab's thorough enumeration otherwise: 859 MB of lazily produced input,
             // several GB of validator tables, about a minute)
-            if tier == Tier::Thorough && std::env::var("XORB_LAB_NO_MANY_CHUNKS").is_err() {
+            if args.report_tier == Tier::Thorough && std::env::var("XORB_LAB_NO_MANY_CHUNKS").is_err() {
                 specs.push(("manychunks".into(), json!({"manychunks": true, "tier": tier.name()})));
             }
             let tiny: Vec<(&str, usize)> = tier.pick(vec![("full", 1), ("five", 6)], vec![("full", 2), ("five", 8)]);
